@@ -222,6 +222,8 @@ def monitor(case: Case, out: list[str]):
 
 
 def within(case: Case, out: list[str]) -> bool:
+    if out[0] != "ok":
+        return False
     lats, _ = true_latencies(case, out)
     return lats is not None and all(x <= case.desc["ml"] for l in lats for x in l)
 
